@@ -11,7 +11,8 @@ Not decided: aliasing of returned arrays through zero-stride views, per-object m
 import ast
 
 from sa import AnalysisError
-from sa.astutil import dotted, src, stmt_text, params, find_stmts, calls_in, method_name, walk_no_nested, const
+from sa.pattern import pmatch, pfind
+from sa.astutil import dotted, src, stmt_text, params, find_stmts, calls_in, method_name, walk_no_nested, const, deep_resolved
 from sa.guards import enclosing_conditions
 
 
@@ -51,8 +52,14 @@ def check_cache_protocol(model, rep):
     ok = len(fl) == 1 and 'main.filter(' in src(fl[0].value) and 'rerun_skip_blocks' in src(fl[0].value) and bool(loops) and fl[0].lineno < loops[0].lineno
     rep.ob('R03.2', f.key, f.where(fl[0]) if fl else f.where(br), ok, 'the rerun body is filtered from main before the freeze statements are appended' if ok else
            'main_rerun is derived after the freeze/reset statements were appended: reruns would re-freeze or clear state', statement='rerun-filter-order')
+    # what the filter of the rerun body skips, in terms of the compile state (whatever the intermediate sets are called)
+    ok = False
+    for flt in [c for c in calls_in(f.node) if src(c.func) == 'main.filter' and c.args and isinstance(c.args[0], ast.Lambda)]:
+        for cmp_ in [n for n in ast.walk(flt.args[0]) if isinstance(n, ast.Compare) and len(n.ops) == 1 and isinstance(n.ops[0], ast.In)]:
+            m = pmatch('util.IDSet(itertools.chain.from_iterable((evaluable_block_map[E_] for E_ in util.IDSet(evaluable_block_map) - rerun_evaluables)))',
+                       deep_resolved(f.node, cmp_.comparators[0]))
+            ok = ok or m is not None
     sk = [s for s in br.body if isinstance(s, ast.Assign) and src(s.targets[0]) == 'rerun_skip_evaluables']
-    ok = len(sk) == 1 and src(sk[0].value).replace(' ', '') == 'util.IDSet(evaluable_block_map)-rerun_evaluables'
     rep.ob('R03.2', f.key, f.where(sk[0]) if sk else f.where(br), ok, 'exactly the blocks of evaluables that are not recomputed are skipped on reruns' if ok else
            'the set of blocks skipped on reruns is no longer (all compiled) minus (recomputed)', statement='rerun-skip-set')
     # util.function binds the generated globals once
